@@ -2,6 +2,21 @@ import CopVerif.Base.Num
 /-!
   Hand-written models (K) of `copulas/optimize/__init__.py`: `bisect` and `chandrupatla`,
   polymorphic in the numeric signature, with the in-place updates of `xmin`/`xmax` made explicit.
+
+  Reading guide (Python line numbers refer to `copulas/optimize/__init__.py`):
+
+  * a numpy vector is a `List α` of *lanes*; the user function `f` is an arbitrary
+    `List α → List α` exactly as in Python (it is called on whole vectors).  The theorems
+    specialise it to an element-wise function `evalLanes fs` (lane `i` is `fs i`).
+  * parallel arrays of equal shape that are only ever combined lane by lane (`a, b, c, fa, fb, fc,
+    t, terminate, xm, …`) are kept as one list of per-lane records (array of structures instead
+    of structure of arrays); the only cross-lane operations of the Python code — the call of `f`,
+    `(xmax - xmin).max()`, `.all()` — stay operations on whole lists.
+  * numpy primitives that are not in `NumFns` (`np.sign`, `np.clip`, `np.maximum/minimum`,
+    `ndarray.max`) are defined here from `<`, `isNaN`, with numpy's NaN behaviour.
+  * A user function that returns a vector of another length makes Python raise from the boolean
+    indexing; the model truncates (`zip`) instead.  Out of scope (the property is about
+    element-wise functions).
 -/
 namespace CopVerif.Model
 open CopVerif NumFns
@@ -16,6 +31,217 @@ def bisectScalar (f : α → α) (lo hi : α) : Nat → α
   | n + 1 =>
     let mid := (lo + hi) / ofNat 2
     if f mid ≤ ofNat 0 then bisectScalar f mid hi n else bisectScalar f lo mid n
+
+/-! ## numpy primitives -/
+
+/-- an element-wise vector function: lane `i` of the result is `fs i` of lane `i` of the argument. -/
+def evalLanes (fs : Nat → α → α) (xs : List α) : List α := xs.mapIdx fun i x => fs i x
+
+/-- `np.maximum(a, b)` (NaN-propagating; returns `b` on ties, as observed for `±0`). -/
+def maxNP (a b : α) : α := if NumFns.isNaN a then a else if b < a then a else b
+
+/-- `np.minimum(a, b)`. -/
+def minNP (a b : α) : α := if NumFns.isNaN a then a else if a < b then a else b
+
+/-- `arr.max()`: `none` stands for the `ValueError` numpy raises on a zero-size array. -/
+def arrMax : List α → Option α
+  | [] => none
+  | x :: xs => some (xs.foldl maxNP x)
+
+/-- `np.sign`: `-1, 0, 1`, NaN for NaN. -/
+def signNP (x : α) : α :=
+  if NumFns.isNaN x then x
+  else if x < ofNat 0 then -(ofNat 1)
+  else if ofNat 0 < x then ofNat 1
+  else ofNat 0
+
+/-- `np.clip(x, lo, hi)` = `min(max(x, lo), hi)` with numpy's clip loop
+    (`isnan(x) ? x : (x > lo ? x : lo)`, then the same against `hi`). -/
+def clipNP (x lo hi : α) : α :=
+  let y := if NumFns.isNaN x then x else if lo < x then x else lo
+  if NumFns.isNaN y then y else if y < hi then y else hi
+
+/-- `(lo + hi) / 2.0` -/
+def mid (lo hi : α) : α := (lo + hi) / ofNat 2
+
+/-! ## `bisect` (lines 6-37)
+
+The state is the list of `(xmin[i], xmax[i])`.  Python overwrites the caller's arrays in place
+(`xmin[mask] = …`), so the final state IS what the caller's arrays contain afterwards. -/
+
+/-- lines 32-33 for one lane: both masks are evaluated on the same `fguess`; when
+    `fguess == 0` both fire and the lane collapses to `lo = hi = guess`; a NaN fires neither. -/
+def bisectUpd (fg g : α) (p : α × α) : α × α :=
+  (if fg ≤ ofNat 0 then g else p.1, if ofNat 0 ≤ fg then g else p.2)
+
+/-- lines 30-33: one loop body. -/
+def bisectStep (f : List α → List α) (s : List (α × α)) : List (α × α) :=
+  let guess := s.map fun p => mid p.1 p.2
+  let fguess := f guess
+  List.zipWith (fun (x : α × α) p => bisectUpd x.1 x.2 p) (List.zip fguess guess) s
+
+/-- `xmax - xmin` -/
+def widths (s : List (α × α)) : List α := s.map fun p => p.2 - p.1
+
+/-- lines 29-35: `fuel` = iterations still allowed, `k` = iterations done.  The stop test is ONE
+    comparison on the maximum width over all lanes. -/
+def bisectLoop (f : List α → List α) (tol : α) : Nat → Nat → List (α × α) → Except Err (Nat × List (α × α))
+  | 0, k, s => .ok (k, s)
+  | fuel + 1, k, s =>
+    let s' := bisectStep f s
+    match arrMax (widths s') with
+    | none => .error .valueError
+    | some w => if w < tol then .ok (k + 1, s') else bisectLoop f tol fuel (k + 1) s'
+
+structure BisectOut (α : Type) where
+  /-- the returned vector `(xmin + xmax) / 2.0` -/
+  result : List α
+  /-- contents of the array object that was passed as `xmin`, after the call (as found) -/
+  xmin : List α
+  xmax : List α
+  /-- number of loop bodies executed -/
+  iters : Nat
+
+/-- `bisect(f, xmin, xmax, tol, maxiter)`. -/
+def bisect (f : List α → List α) (xmin xmax : List α) (tol : α) (maxiter : Nat) :
+    Except Err (BisectOut α) :=
+  if !((f xmin).all fun y => decide (y ≤ ofNat 0)) then .error .assertion
+  else if !((f xmax).all fun y => decide (ofNat 0 ≤ y)) then .error .assertion
+  else match bisectLoop f tol maxiter 0 (xmin.zip xmax) with
+    | .error e => .error e
+    | .ok (k, s) => .ok { result := s.map fun p => mid p.1 p.2
+                          xmin := s.map (·.1), xmax := s.map (·.2), iters := k }
+
+/-- Which arrays does the CALLER hold after the call?  `asFound`: the code writes through the
+    arguments (recorded under property C20); `repaired`: it works on copies. -/
+inductive Aliasing where
+  | asFound | repaired
+  deriving DecidableEq, Repr
+
+def callerArrays (v : Aliasing) (xmin xmax : List α) (out : BisectOut α) : List α × List α :=
+  match v with
+  | .asFound => (out.xmin, out.xmax)
+  | .repaired => (xmin, xmax)
+
+/-! ## `chandrupatla` (lines 40-154) -/
+
+/-- per-lane state at the top of the `while` body. `lo`/`hi` are `xmin[i]`/`xmax[i]`
+    (never written by this function). -/
+structure ChPre (α : Type) where
+  lo : α
+  hi : α
+  a : α
+  b : α
+  c : α
+  fa : α
+  fb : α
+  fc : α
+  t : α
+  term : Bool
+
+/-- per-lane state at the `if np.all(terminate): break` test (line 122). -/
+structure ChMid (α : Type) where
+  lo : α
+  hi : α
+  a : α
+  b : α
+  c : α
+  fa : α
+  fb : α
+  fc : α
+  term : Bool
+  xm : α
+  fm : α
+  tlim : α
+
+/-- line 98: `np.clip(a + t * (b - a), xmin, xmax)` -/
+def chXt (l : ChPre α) : α := clipNP (l.a + l.t * (l.b - l.a)) l.lo l.hi
+
+/-- lines 105-120 for one lane, given the new point `xt` and `ft = f(xt)[i]`. -/
+def chUpd (epsM epsA : α) (xt ft : α) (l : ChPre α) : ChMid α :=
+  let samesign := NumFns.beq (signNP ft) (signNP l.fa)
+  let c := if samesign then l.a else l.b
+  let b := if samesign then l.b else l.a
+  let fc := if samesign then l.fa else l.fb
+  let fb := if samesign then l.fb else l.fa
+  let a := xt
+  let fa := ft
+  let smaller : Bool := decide (NumFns.abs fa < NumFns.abs fb)
+  let xm := if smaller then a else b
+  let fm := if smaller then fa else fb
+  let tol := ofNat 2 * epsM * NumFns.abs xm + epsA
+  let tlim := tol / NumFns.abs (b - c)
+  let term := l.term || (NumFns.beq fm (ofNat 0) || decide (ofSci 5 1 < tlim))
+  { lo := l.lo, hi := l.hi, a := a, b := b, c := c, fa := fa, fb := fb, fc := fc,
+    term := term, xm := xm, fm := fm, tlim := tlim }
+
+/-- lines 128-151 for one lane.  `sq` is how `x**2` is computed: `x*x` for an ndarray
+    (numpy's fast path for the exponent 2), `pow x 2` for a numpy scalar. -/
+def chNext (sq : α → α) (m : ChMid α) : ChPre α :=
+  let xi := (m.a - m.b) / (m.c - m.b)
+  let phi := (m.fa - m.fb) / (m.fc - m.fb)
+  let iqi : Bool := decide (sq phi < xi) && decide (sq (ofNat 1 - phi) < ofNat 1 - xi)
+  let t0 := if iqi then
+      m.fa / (m.fb - m.fa) * m.fc / (m.fb - m.fc)
+        + (m.c - m.a) / (m.b - m.a) * m.fa / (m.fc - m.fa) * m.fb / (m.fc - m.fb)
+    else ofSci 5 1
+  let t := minNP (ofNat 1 - m.tlim) (maxNP m.tlim t0)
+  { lo := m.lo, hi := m.hi, a := m.a, b := m.b, c := m.c, fa := m.fa, fb := m.fb, fc := m.fc,
+    t := t, term := m.term }
+
+/-- lines 98-120 on the whole batch: ONE call of `f` on the vector of new points. -/
+def chHalf (f : List α → List α) (epsM epsA : α) (s : List (ChPre α)) : List (ChMid α) :=
+  let xt := s.map chXt
+  let ft := f xt
+  List.zipWith (fun (x : α × α) l => chUpd epsM epsA x.1 x.2 l) (List.zip xt ft) s
+
+/-- the `while maxiter > 0` loop.  `xm` is the value the name `xm` is bound to (last iteration's);
+    returns `(iterations executed, xm)`. -/
+def chLoop (f : List α → List α) (sq : α → α) (epsM epsA : α) :
+    Nat → Nat → List (ChPre α) → List α → Nat × List α
+  | 0, k, _, xm => (k, xm)
+  | fuel + 1, k, s, _ =>
+    let m := chHalf f epsM epsA s
+    if m.all (·.term) then (k + 1, m.map (·.xm))
+    else chLoop f sq epsM epsA fuel (k + 1) (m.map (chNext sq)) (m.map (·.xm))
+
+/-- lines 64-81: `a = xmax; b = xmin; fc = fa; c = a; t = 0.5; terminate = False`. -/
+def chInit (lo hi fa fb : α) : ChPre α :=
+  { lo := lo, hi := hi, a := hi, b := lo, c := hi, fa := fa, fb := fb, fc := fa,
+    t := ofSci 5 1, term := false }
+
+/-- array case (`np.shape(fa) != ()`).  Returns `(iterations, xm)`.
+    `maxiter = 0` leaves `xm` unbound: `UnboundLocalError` (`Err.other`). -/
+def chandrupatla (f : List α → List α) (xmin xmax : List α) (epsM epsA : α) (maxiter : Nat) :
+    Except Err (Nat × List α) :=
+  let fa := f xmax
+  let fb := f xmin
+  if fa.length ≠ fb.length then .error .assertion
+  else if !((List.zip fa fb).all fun p => decide (signNP p.1 * signNP p.2 ≤ ofNat 0)) then
+    .error .assertion
+  else if maxiter = 0 then .error .other
+  else
+    let s := List.zipWith (fun (x : α × α) (y : α × α) => chInit x.1 x.2 y.1 y.2)
+      (List.zip xmin xmax) (List.zip fa fb)
+    .ok (chLoop f (fun x => x * x) epsM epsA maxiter 0 s [])
+
+/-- scalar case (`np.shape(fa) == ()`, lines 132-141): `f` is called on scalars, `phi**2` is a
+    numpy-scalar power, `if iqi:` is a Python branch. -/
+def chLoopScalar (f : α → α) (epsM epsA : α) : Nat → Nat → ChPre α → α → Nat × α
+  | 0, k, _, xm => (k, xm)
+  | fuel + 1, k, l, _ =>
+    let xt := chXt l
+    let m := chUpd epsM epsA xt (f xt) l
+    if m.term then (k + 1, m.xm)
+    else chLoopScalar f epsM epsA fuel (k + 1) (chNext (fun x => NumFns.pow x (ofNat 2)) m) m.xm
+
+def chandrupatlaScalar (f : α → α) (xmin xmax : α) (epsM epsA : α) (maxiter : Nat) :
+    Except Err (Nat × α) :=
+  let fa := f xmax
+  let fb := f xmin
+  if !(decide (signNP fa * signNP fb ≤ ofNat 0)) then .error .assertion
+  else if maxiter = 0 then .error .other
+  else .ok (chLoopScalar f epsM epsA maxiter 0 (chInit xmin xmax fa fb) xmin)
 
 end
 end CopVerif.Model
